@@ -101,12 +101,32 @@ def run_case(case, sc):
         return {"status": "held", "key": None}
     main_start = min(s["_span"][0] for s in pr["main"]) if pr["main"] else len(src)
     # nodes inside lambdas are not probed
+    # nodes inside lambdas are not probed (eval-up-to cannot know a closure's arguments), except lambdas written
+    # directly as the argument of map / filter: those run while their own top-level item is evaluated
     in_lambda = set()
 
-    def mark(n):
-        if n.get("k") == "lambda":
-            G.walk(n["body"], lambda m: in_lambda.add(id(m)))
-    G.walk(pr["main"], mark)
+    def mark(n, excluded):
+        if isinstance(n, dict):
+            if excluded and "k" in n:
+                in_lambda.add(id(n))
+            if n.get("k") == "mcall" and n.get("m") in ("map", "filter") and n["args"] and n["args"][0].get("k") == "lambda":
+                mark(n["recv"], excluded)
+                lam = n["args"][0]
+                if excluded:
+                    in_lambda.add(id(lam))
+                for v in lam.values():
+                    mark(v, excluded)
+                return
+            if n.get("k") == "lambda":
+                for v in n.values():
+                    mark(v, True)
+                return
+            for v in n.values():
+                mark(v, excluded)
+        elif isinstance(n, list):
+            for v in n:
+                mark(v, excluded)
+    mark(pr["main"], False)
     # enclosing construct
     enc = {}
 
